@@ -173,6 +173,10 @@ class C05(Check):
 
     def execute(self, plan, forced=None):
         out = Outcome()
+        # nothing that an earlier run of this worker left in lark's class attributes, module globals or memoising wrappers survives:
+        # the in-process evaluations of a run depend on the plan only (the child-interpreter nodes start fresh anyway)
+        for name in core.reset_lark_process_state():
+            out.count('probe:process-state-left-by-an-earlier-run:' + name)
         cases = plan['cases']
         lcases = [self._lark_case(c) for c in cases]
         # results[case][order] = list per input
